@@ -75,3 +75,9 @@ TABLE.update({
          "level": "Exploration: accumulate (all window classes, -i, both axes, cumulative, one >=50x60x30 input per run to reach SciPy's FFT path), ens2prob (cdf/quantile invariants, PIT), expandverif (valid-time matching) on generated text and NetCDF inputs; dimensions and location metadata preserved.",
          "note": TB, "design": "DESIGN.md 4/C20"},
 })
+
+TABLE.update({
+ "C16": {"technique": "runtime monitoring: figure read-back (matplotlib artists after driver.run) compared with each diagram's defining statistic from the reference model; bin-conservation invariants",
+         "level": "Exploration: 34 diagrams/views (standard, obsfcst, qq, scatter, cond, freq, hist, sort, marginal, reliability, invreliability, discrimination, roc, droc, droc0, performance, taylor, error, pithist, spreadskill, murphy, economicvalue, bsdecomp, igncontrib, fss, autocorr, autocov, timeseries, meteo, against, change, map, rank, impact) on generated deterministic/probabilistic datasets with their options; every series' coordinates, series order and, for binned diagrams, sum of bin counts = number of valid cases.",
+         "note": TB + "; decorations (confidence bands, reference lines) are not checked", "design": "DESIGN.md 4/C16"},
+})
